@@ -44,6 +44,10 @@ def build_menu():
     part("cg", W, 2, "list", "Partition", o="minsum"); part("cg", W, 3, "list", "Partition", o="maxsum"); part("cg", W, 3, "list", "Partition", o="diff", sw="0010")
     part("dp", W, 2, "list", "Partition", o="maxsum"); part("dp", W, 3, "list", "Sums", o="maxsum"); part("greedy", W, 2); part("greedy", W, 4, "dict")
     part("multifit", W, 3, "list", "Partition", it=2); part("multifit", W, 3, "list", "Partition", it=10); part("cbldm", W, 2, "list", "Partition", d=1); part("cbldm", W, 2, "list", "Partition", d=3)
+    # failing calls in every presentation whose values overlap those of later successful calls (what a failed call may leave behind)
+    pack("bc", [26, 70, 10], 36, "dict"); pack("bc", [10, 26, 99, 20], 36, "valueof"); pack("bfd", [26, 70, 10], 36, "dict"); pack("ff", [29, 22, 90], 58, "valueof")
+    pack("bc", X, 36, "dict"); pack("bc", X, 36, "valueof"); pack("bc", Y, 58, "dict")
+    part("cbldm", W + [-5], 2, "dict"); part("cbldm", W, 2, "dict", "Partition", d=0); part("ilp", W[:4], 2, "dict", "Sums", o="diff", infeasible=1)
     return M
 
 
